@@ -170,6 +170,16 @@ def falsified(text, flags, rec=None):
             for sg, s in astspec.head_derived(stm):
                 if any(n.ast_type == ASTType.Interval for n in walk(s)):
                     keys.add("Hyp_no_head_interval")
+    # D35: a copy rule next to a variable that looks like a made-unique name
+    if "unused" in on:
+        allv = set()
+        for stm in rules:
+            allv |= set(variables(stm))
+        copyrule = any(stm.ast_type == ASTType.Rule and stm.head.ast_type == ASTType.Literal and len(stm.body) == 1 and
+                       stm.body[0].ast_type == ASTType.Literal and stm.body[0].atom.ast_type == ASTType.SymbolicAtom and
+                       stm.head.atom.ast_type == ASTType.SymbolicAtom for stm in rules)
+        if copyrule and any(re.fullmatch(r"(.+?)\d+", v) and re.fullmatch(r"(.+?)\d+", v).group(1) in allv for v in allv):
+            keys.add("Hyp_copy_no_capture")
     # D26: #external over a derived predicate
     derived = set()
     for stm in prg:
